@@ -42,4 +42,35 @@ Parseval4 ==
 \* real data: P_k = P_{NFFT-k}, so bins 0..NFFT/2 carry everything
 RealSymmetric4 ==
     (Small4 /\ ~Complex) => \A k \in 1..3 : Direct4(k) = Direct4(4 - k)
+
+---------------------------------------------------------------------------
+(* C04 / C05 on the kernel, in the lag domain (c_d = biased autocorrelation):  *)
+(*  modulation  x_n i^n (= exp(2 pi i m n/NFFT) with m = NFFT/4): c_d -> i^d c_d, *)
+(*              hence P_k -> P_{k-m}: a circular shift by exactly m bins        *)
+(*  conjugation conj(x): c_d -> conj(c_d), hence P_k -> P_{-k}                 *)
+(*  reversal    conj(reverse(x)): c_d unchanged, hence the same spectrum       *)
+(*  grid        the NFFT=2 spectrum is the NFFT=4 spectrum at even bins        *)
+RawOfSeq(u, k) == CSumSeq([n \in 1..(Len(u) - k) |-> CMul(u[n + k], CConj(u[n]))])
+Modulated == [n \in 1..Len(x) |-> CMulIPow(x[n], n - 1)]
+Conjugated == [n \in 1..Len(x) |-> CConj(x[n])]
+ConjReversed == [n \in 1..Len(x) |-> CConj(x[(Len(x) + 1) - n])]
+
+DoneAuto == IsDone /\ Auto
+
+ModulationTheorem == DoneAuto => \A k \in 0..(Len(x) - 1) : RawOfSeq(Modulated, k) = CMulIPow(RawOfSeq(x, k), k)
+ConjugationTheorem == DoneAuto => \A k \in 0..(Len(x) - 1) : RawOfSeq(Conjugated, k) = CConj(RawOfSeq(x, k))
+ReversalTheorem == DoneAuto => \A k \in 0..(Len(x) - 1) : RawOfSeq(ConjReversed, k) = RawOfSeq(x, k)
+
+\* spectrum of a lag sequence c (c[1] = lag 0) on the 4-point and 2-point grids
+Spec4(c, k) == LET pos == CSumFn(LAMBDA d : CMul(c[d], Zeta4(k * (d - 1))), 2, Len(c))
+               IN  CAdd(c[1], CAdd(pos, CConj(pos)))
+Zeta2(j) == IF j % 2 = 0 THEN COne ELSE CNeg(COne)
+Spec2(c, k) == LET pos == CSumFn(LAMBDA d : CMul(c[d], Zeta2(k * (d - 1))), 2, Len(c))
+               IN  CAdd(c[1], CAdd(pos, CConj(pos)))
+\* shift covariance and mirror on the 4-point grid, from the theorems above
+ShiftByOneBin4 == DoneAuto => LET cm == [d \in 1..Len(x) |-> CScale(RFrac(1, Len(x)), RawOfSeq(Modulated, d - 1))]
+                              IN  \A k \in 0..3 : Spec4(cm, k) = Spec4(out.biased, (k + 3) % 4)
+Mirror4 == DoneAuto => LET cc == [d \in 1..Len(x) |-> CScale(RFrac(1, Len(x)), RawOfSeq(Conjugated, d - 1))]
+                       IN  \A k \in 0..3 : Spec4(cc, k) = Spec4(out.biased, (4 - k) % 4)
+GridConsistency24 == DoneAuto => \A k \in 0..1 : Spec2(out.biased, k) = Spec4(out.biased, 2 * k)
 =============================================================================
